@@ -1398,6 +1398,15 @@ func (e *Env) compsByName(name string) []string {
 			return out
 		}
 	}
+	if strings.HasPrefix(name, "map ") {
+		// heap(map T): the contents of every map of the (named) map type T
+		if t := e.resolveType(strings.TrimSpace(name[4:])); t != nil {
+			if mt, ok := t.Underlying().(*types.Map); ok {
+				return []string{e.vc.mapDom(mt), e.vc.mapVal(mt)}
+			}
+		}
+		return nil
+	}
 	if c := e.compByName(name); c != "" {
 		return []string{c}
 	}
